@@ -162,3 +162,75 @@ class OneWild(metaclass=StableHashMeta):
     head: Optional[str] = field(default=None, metadata={"type": "Element"})
     single: Optional[object] = field(default=None, metadata={"type": "Wildcard", "namespace": "##any"})
     tail: Optional[int] = field(default=None, metadata={"type": "Element"})
+
+
+@dataclass
+class WildChoice(metaclass=StableHashMeta):
+    """A compound field whose choices include a wildcard."""
+
+    class Meta:
+        name = "wildChoice"
+        namespace = "urn:e"
+
+    items: list[object] = field(
+        default_factory=list,
+        metadata={
+            "type": "Elements",
+            "choices": (
+                {"name": "thing", "type": GlobalThing},
+                {"name": "n", "type": int},
+                {"name": "color", "type": Color, "nillable": True},
+                {"wildcard": True, "type": object, "namespace": "##any"},
+            ),
+        },
+    )
+    label: Optional[str] = field(default=None, metadata={"type": "Attribute"})
+
+
+@dataclass
+class XCustomer(metaclass=StableHashMeta):
+    class Meta:
+        name = "customer"
+        namespace = "urn:e"
+
+    id: Optional[str] = field(default=None, metadata={"type": "Attribute"})
+    name: Optional[str] = field(default=None, metadata={"type": "Element"})
+
+
+@dataclass
+class XOrder(metaclass=StableHashMeta):
+    """Documents of this class live in files that pull their parts in through XInclude."""
+
+    class Meta:
+        name = "xorder"
+        namespace = "urn:e"
+
+    number: Optional[str] = field(default=None, metadata={"type": "Attribute"})
+    customer: Optional[XCustomer] = field(default=None, metadata={"type": "Element"})
+    line: list[str] = field(default_factory=list, metadata={"type": "Element"})
+    note: Optional[str] = field(default=None, metadata={"type": "Element"})
+
+
+@dataclass
+class _HiddenPart(metaclass=StableHashMeta):
+    class Meta:
+        name = "part"
+        namespace = "urn:e"
+
+    v: Optional[int] = field(default=None, metadata={"type": "Element"})
+
+
+# The annotations of NeedsGlobals name this class as "HiddenPart", which no module defines: they resolve
+# only through SerializerConfig(globalns=GLOBALNS).
+GLOBALNS = {"HiddenPart": _HiddenPart}
+
+
+@dataclass
+class NeedsGlobals(metaclass=StableHashMeta):
+    class Meta:
+        name = "needsGlobals"
+        namespace = "urn:e"
+
+    hidden_part: Optional["HiddenPart"] = field(default=None, metadata={"type": "Element", "name": "hiddenPart"})  # noqa: F821
+    hidden_parts: list["HiddenPart"] = field(default_factory=list, metadata={"type": "Element", "name": "hiddenParts"})  # noqa: F821
+    hidden_label: Optional[str] = field(default=None, metadata={"type": "Attribute", "name": "hiddenLabel"})
